@@ -100,6 +100,8 @@ type Stats struct {
 	BoundReached int
 	// FaultsSeen: the largest number of injected faults actually consumed in one execution
 	FaultsSeen int
+	// OpsSeen: the largest number of filesystem calls process 0 made in one execution
+	OpsSeen int
 }
 
 type FoundViolation struct {
@@ -331,6 +333,9 @@ func (e *Explorer) handle(x *Exec) {
 	}
 	if nf > e.St.FaultsSeen {
 		e.St.FaultsSeen = nf
+	}
+	if len(x.W.Procs) > 0 && x.W.Procs[0].OpCount > e.St.OpsSeen {
+		e.St.OpsSeen = x.W.Procs[0].OpCount
 	}
 	if len(x.points) > e.St.MaxDepth {
 		e.St.MaxDepth = len(x.points)
